@@ -81,6 +81,7 @@ def run(ctx):
         if k < 2:
             ctx.sample({"kw": kw, "rad_re_idx": int(d.rad_re_idx), "j": d.j, "fwhm": d.fwhm, "v_ra": d.v_ra, "v_ax_sc": d.v_ax_sc})
     grid_sweep(ctx, 3000 if ctx.thorough else 400)
+    device_survives_use(ctx)
 
 
 def grid_sweep(ctx, n):
@@ -119,15 +120,51 @@ def grid_sweep(ctx, n):
             if len(ctx.failures) > 8: break
 
 
-def stmt(kw):
+def device_survives_use(ctx):
+    """a Device is a value: after it has been used — a simulation, then the radial distribution queried from the result, which hands
+    `device.rad_phi_uncomp` to the solver as first guess — all its derived quantities are still those of `Device.get` with the same arguments"""
+    import ebisim, logging
+    from ebisim.simulation import Device, advanced_simulation
+    logging.getLogger("ebisim").setLevel(logging.ERROR)
+    rng = np.random.default_rng([ctx.seed, 14140])
+    kw = draw(rng, 0); kw["n_grid"] = 120
+    d = Device.get(**kw)
+    before = {f: (np.array(getattr(d, f), copy=True) if isinstance(getattr(d, f), np.ndarray) else getattr(d, f)) for f in d._fields}
+    try:
+        edge = abs(d.rad_phi_uncomp[d.rad_re_idx] - d.rad_phi_uncomp[0])
+        res = advanced_simulation(d, ebisim.Element.get_ions(6, 1e7, float(edge / 10), 2), t_max=1e-5, verbose=False)
+        res.radial_distribution_at_time(float(res.t[res.t.size // 2]))
+        res.radial_distribution_at_time(float(res.t[-1]))
+    except Exception as ex:
+        ctx.count("device_use_raised_" + type(ex).__name__)
+    ctx.evaluations += 1; ctx.count("device_use_sequences")
+    fresh = Device.get(**kw)
+    changed = [f for f in d._fields if not (np.array_equal(getattr(d, f), before[f]) if isinstance(before[f], np.ndarray) else getattr(d, f) == before[f] or (before[f] != before[f]))]
+    differs = [f for f in d._fields if isinstance(before[f], np.ndarray) and not np.array_equal(getattr(d, f), getattr(fresh, f))]
+    if changed or differs:
+        ctx.fail("correspondence", f"after a simulation and a radial-distribution query the Device's fields {sorted(set(changed + differs))} are no longer those Device.get derived", inp={"kw": kw, "sequence": "use"})
+
+
+def stmt(kw, sequence=None):
     from ebisim.simulation import Device
     import ebisim.simulation._radial_dist as rd
     from ebisim.plasma import electron_velocity
     from ebisim.physconst import PI, EPS_0
     d = Device.get(**kw)
+    if sequence == "use":
+        import ebisim, logging
+        from ebisim.simulation import advanced_simulation
+        logging.getLogger("ebisim").setLevel(logging.ERROR)
+        try:
+            edge = abs(d.rad_phi_uncomp[d.rad_re_idx] - d.rad_phi_uncomp[0])
+            res = advanced_simulation(d, ebisim.Element.get_ions(6, 1e7, float(edge / 10), 2), t_max=1e-5, verbose=False)
+            res.radial_distribution_at_time(float(res.t[res.t.size // 2])); res.radial_distribution_at_time(float(res.t[-1]))
+        except Exception:
+            pass
     out = []
     def add(clause, what):
-        out.append({"key": {"clause": clause}, "what": what, "input": {"kw": kw}})
+        out.append({"key": {"clause": clause}, "what": what + (" (after the device was used for a simulation and a radial-distribution query)" if sequence else ""),
+                    "input": {"kw": kw, "sequence": sequence}})
     g = d.rad_grid
     if g[0] != 0 or g[-1] != kw["r_dt"] or np.any(np.diff(g) <= 0):
         add("grid", f"radial grid is not strictly increasing from 0 to r_dt (first {g[0]!r}, last {g[-1]!r}, min step {np.diff(g).min()!r})")
@@ -182,7 +219,7 @@ def search(ctx):
     V = []
     for f in ctx.failures:
         kw = (f.get("input") or {}).get("kw")
-        if kw: V += stmt(dict(kw))
+        if kw: V += stmt(dict(kw), (f.get("input") or {}).get("sequence"))
     for k in range(32 if (ctx.thorough or ctx.failures) else 6):
         kw = draw(rng, k)
         if kw["n_grid"] > 700 and not ctx.thorough: kw["n_grid"] = 400
@@ -195,5 +232,5 @@ def replay(ctx, data):
     v = data.get("violation", {})
     kw = v.get("input", {}).get("kw")
     if not kw: return None
-    r = [x for x in stmt(dict(kw)) if x["key"] == v["key"]]
+    r = [x for x in stmt(dict(kw), v.get("input", {}).get("sequence")) if x["key"] == v["key"]]
     return r[0] if r else None
